@@ -371,6 +371,11 @@ func main() {
 		// one client aborts its connection while its request is still running; the others must still be notified
 		add(conf{name: "aborting-client", pool: pool, queueCap: 8, clients: 3, shutdownMs: 100, ctxMs: 10000, abortMs: map[int]int{0: 50},
 			reqs: []req{{0, 5, 700, 1, false}, {2, 5, 0, 2, false}}}, 1, false)
+		// handlers that outlast the 2 s after which the shutdown poller regards a connection as idle
+		add(conf{name: "one-long", pool: pool, queueCap: 8, clients: 1, shutdownMs: 100, ctxMs: 10000,
+			reqs: []req{{0, 5, 4000, 1, false}}}, 1, false)
+		add(conf{name: "two-long-pipelined", pool: pool, queueCap: 8, clients: 1, shutdownMs: 100, ctxMs: 10000, noReadTO: true,
+			reqs: []req{{0, 5, 2200, 1, false}, {0, 6, 2200, 2, false}}}, 1, false)
 		// a one-way request was served on the connection (alone, before, after a normal one)
 		for _, sd := range []int{100, 1000} {
 			add(conf{name: "one-way", pool: pool, queueCap: 8, clients: 1, shutdownMs: sd, ctxMs: 5000,
